@@ -58,6 +58,7 @@ class Family:
     scenario_of: Callable[[list, int], dict] | None = None
     extra_traces: Callable[[str, int], list[dict]] | None = None   # e.g. harvested / random programs
     clauses: set[str] | None = None    # clause names that belong to this property (None = all)
+    directed: str | None = None        # corpus/<name>.json: directed scenarios beyond the emitted bounds
 
 
 def run_family(fam: Family, tier: str, seed: int) -> int:
@@ -154,6 +155,13 @@ def run_part(fam: Family, tier: str, seed: int, rep: core.Report) -> None:
             rep.models.append({"model": f"{fam.mc_module}/{cfg.name}", "mode": "simulate",
                                "behaviours": cfg.simulate, "complete_histories": len(fs),
                                "wall_s": round(r.wall_s, 1), "constants": cfg.constants})
+
+    if fam.directed:
+        path = core.VERIF / "corpus" / fam.directed
+        for k, item in enumerate(json.loads(path.read_text())):
+            scenarios.append({"scn": item["scn"], "kw": item.get("kw", {}), "fin": None,
+                              "src": f"directed:{fam.directed}#{k}"})
+        rep.extra["directed_scenarios"] = rep.extra.get("directed_scenarios", 0) + k + 1
 
     # replay on the real code
     by_kw: dict[str, list[int]] = {}
